@@ -247,10 +247,23 @@ func c12Histories(r *mc.Run) {
 			getter.Responses[k] = v
 		}
 	}
+	// quote A with another issue of the root in its chain (same key and name, another CRL distribution point):
+	// what an earlier quote carried must not decide where a later call fetches from
+	var qd *pb.QuoteV4
+	{
+		otherDP := world.MakeCert(world.CertSpec{CN: world.CNRoot, IsCA: true, Key: T.RootKey, MaxPathLen: 1, CRLDP: []string{"https://crl.other-issue.example/root.crl"}}, nil, T.RootKey)
+		p := wa.Parts.Clone()
+		p.Chain = world.PEM(wa.PKI.Leaf, wa.PKI.Inter, otherDP)
+		raw, _ := p.Bytes()
+		var err error
+		if qd, err = safeToProto(raw); err != nil {
+			panic("harness: quote with re-issued root does not parse: " + err.Error())
+		}
+	}
 	quotes := []struct {
 		name string
 		q    *pb.QuoteV4
-	}{{"A", qa}, {"A'", qb}, {"foreign", qf}, {"empty-message", &pb.QuoteV4{}}}
+	}{{"A", qa}, {"A'", qb}, {"foreign", qf}, {"empty-message", &pb.QuoteV4{}}, {"A-root-issue-with-other-crl-dp", qd}}
 	var ops []c12op
 	lvlNames := []string{"L0", "L1", "L2", "revocation-without-collateral"}
 	for qi := range quotes {
